@@ -157,11 +157,37 @@ def find_counterexample(target: Poly, slacks: list[Poly], variables: Optional[li
     return done(None)
 
 
+def box_upper_bounds(slacks: list[Poly]) -> dict:
+    """Per-variable upper bounds implied by slacks of the form  c - sum(a_i * x_i) >= 0  with
+    all a_i > 0 (a sound relaxation of the constraint polytope to a box)."""
+    ub: dict = {}
+    for s_ in slacks:
+        if not s_.is_linear():
+            continue
+        c = s_.const_value()
+        coefs = {m[0][0]: k for m, k in s_.terms.items() if m}
+        if not coefs or any(k > 0 for k in coefs.values()) or c < 0:
+            continue
+        for v, k in coefs.items():
+            b = c / (-k)
+            if v not in ub or b < ub[v]:
+                ub[v] = b
+    return ub
+
+
 def decide_leq(value: Poly, bound, slacks: list[Poly], variables=None):
     """Is value <= bound under the constraints?  (True, None) / (False, witness) / (None, None)."""
     target = to_poly(bound) - to_poly(value)
     if prove_nonneg(target, slacks):
         return True, None
+    value = to_poly(value)
+    if value.nonneg_coeffs() and not value.is_linear():
+        # monotone polynomial: bounded by its value at the box relaxation's upper corner
+        ub = box_upper_bounds(slacks)
+        if all(v in ub for v in value.variables()):
+            top = evaluate(value, {v: ub[v] for v in value.variables()})
+            if top <= evaluate(to_poly(bound), {}):
+                return True, None
     w = find_counterexample(target, slacks, variables, extra_values=[int(bound), int(bound) + 1] if isinstance(bound, int) else ())
     if w is not None:
         return False, w
